@@ -181,7 +181,9 @@ def make_recording_evaluator(rec):
         # -- executed code
         def _exec(self, kind, obj, code, event, super_call):
             ac = {'event': event} if kind == 'action' else None
-            sig = self._sig(kind, obj, 0, code if code else None, ac if code else ac, 'exec')
+            # (a slot without code executes nothing: it is probed through an EVALUATION, so that the harness does not run a code block
+            # where the implementation runs none - anything the evaluator remembers "since the last executed block" stays as it is)
+            sig = self._sig(kind, obj, 0, code if code else None, ac if code else ac, 'exec' if code else 'eval')
             before = ctx_value(self._context)
             entry = dict(op='exec', sig=sig, ctx=before, result=None)
             rec.calls.append(entry)
